@@ -240,7 +240,7 @@ Section EvalF.
     else
       let st0 := set_onstack st n true in
       match shallow_missing st0 (c_orig c) (sig_leaves (c_sig c)) with
-      | _ :: _ as ks => (Fail (mkErr [LMissingDeps] (RMissing ks)), set_onstack st0 n false)
+      | (_ :: _) as ks => (Fail (mkErr [LMissingDeps] (RMissing ks)), set_onstack st0 n false)
       | [] =>
           match rec (TLeaves (c_orig c) (sig_build_seq (c_sig c))) st0 with
           | (Fail e, st1) => (Fail (wrap LArgsFailed e), set_onstack st1 n false)
@@ -275,7 +275,7 @@ Section EvalF.
     else
       let st0 := set_dstate st d DOnStack in
       match shallow_missing st0 (d_home dn) (sig_leaves (d_sig dn)) with
-      | _ :: _ as ks => (Fail (mkErr [LMissingDeps] (RMissing ks)), set_dstate st0 d DReady)
+      | (_ :: _) as ks => (Fail (mkErr [LMissingDeps] (RMissing ks)), set_dstate st0 d DReady)
       | [] =>
           match rec (TLeaves (d_home dn) (sig_build_seq (d_sig dn))) st0 with
           | (Fail e, st1) => (Fail (wrap LArgsFailed e), set_dstate st1 d DReady)
@@ -330,7 +330,7 @@ Record invoke_in := mkInvokeIn { ii_fn : fnid; ii_sig : fsig }.
 Definition invoke (cfg : config) (b : beh) (du : dur) (st : state) (s : sid) (p : invoke_in) : verdict * state :=
   let sg := ii_sig p in
   match shallow_missing st s (sig_leaves sg) with
-  | _ :: _ as ks => (VErr (mkErr [LMissingDeps] (RMissing ks)), st)
+  | (_ :: _) as ks => (VErr (mkErr [LMissingDeps] (RMissing ks)), st)
   | [] =>
       let chk :=
         if s_verified (get_scope st s) then Some (true, st)
